@@ -1,1 +1,1039 @@
-(** Model/PyScope.v — placeholder, to be written. *)
+(** Model/PyScope.v — name resolution of inline Python in pypyr (C14).
+
+    What is modelled, and where it comes from:
+
+      pypyr/context.py   Context.__init__           -> [eval_state]   (namespace = ChainMap-pretend-dict
+                                                        over maps [context; imports], builtins in the dict part)
+                         Context.get_eval_string    -> [run_eval]     (eval(src, namespace): globals = locals
+                                                        = the namespace object)
+                         pystring_globals_update    -> [pyimport_ns]  (imports kept beside the context)
+      pypyr/steps/py.py  run_step                   -> [exec_globals], [run_exec]
+                                                       (exec(src, g) with g = context.copy() + __builtins__ + save)
+                         get_save / save            -> [do_save]
+      CPython 3.12       compile-time scope classification and the name opcodes
+                         LOAD_NAME / STORE_NAME     -> [load_name] / [store_name]   (locals-mapping protocol)
+                         LOAD_GLOBAL / STORE_GLOBAL -> [load_global] / [store_global]
+                                                       (loads: dict-subclass __getitem__; stores: raw dict storage)
+                         LOAD_FAST/DEREF, STORE_FAST-> [find_local] / [set_local]
+                         PEP 709 inlined comprehensions, PEP 572 assignment expressions.
+
+    The Python fragment is a small AST ([expr], [stmt]); the harness renders it to source.
+    [Unsup] = outside the modelled fragment or out of fuel. *)
+From PV Require Export PyVal.
+Open Scope string_scope.
+
+(** * Syntax *)
+Inductive binop := BAdd | BEq | BLt.
+
+Inductive expr : Type :=
+| XNone
+| XBool (b : bool)
+| XInt (z : Z)
+| XStr (s : string)
+| XName (x : string)
+| XBin (op : binop) (a b : expr)
+| XList (es : list expr)
+| XLam (params : list string) (body : expr) (args : list expr)  (* (lambda ps: body)(args) *)
+| XComp (elt : expr) (clauses : list (string * expr))           (* [elt for x1 in e1 for x2 in e2 ..] *)
+| XWalrus (x : string) (e : expr)                               (* (x := e) *)
+| XCall (f : expr) (args : list expr)
+| XAttr (e : expr) (a : string)
+| XAppend (l x : expr).                                         (* l.append(x) *)
+
+Inductive stmt : Type :=
+| SAssign (x : string) (e : expr)
+| SAug (x : string) (e : expr)                                  (* x += e *)
+| SImport (m : string)
+| SFrom (m n a : string)                                        (* from m import n as a *)
+| SDef (f : string) (params : list string) (body : expr)        (* def f(ps): return body *)
+| SClass (c : string) (attrs : list (string * expr))            (* class c: a1 = e1; ... *)
+| SSave (names : list string) (kws : list (string * expr))      (* save('n1', .., k1=e1, ..) *)
+| SExpr (e : expr)
+| SDel (x : string).
+
+(** * Values, objects, namespaces *)
+Inductive value : Type :=
+| PNone
+| PBool (b : bool)
+| PInt (z : Z)
+| PStr (s : string)
+| PNative (name : string)   (* builtin function / type; "<save>" = the save closure; "<builtins>" = the builtins dict *)
+| PModule (name : string)
+| PRef (id : nat).          (* reference to a heap object: identity matters *)
+
+Definition ns := list (string * value).
+
+Inductive obj : Type :=
+| OList (items : list value)
+| OFunc (name : string) (params : list string) (body : expr)
+| OClass (name : string) (attrs : ns).
+
+Fixpoint ns_get (k : string) (d : ns) : option value :=
+  match d with
+  | [] => None
+  | (k', v) :: r => if String.eqb k k' then Some v else ns_get k r
+  end.
+
+(** Python [d[k] = v]: update in place when present, append otherwise. *)
+Fixpoint ns_set (k : string) (v : value) (d : ns) : ns :=
+  match d with
+  | [] => [(k, v)]
+  | (k', v') :: r => if String.eqb k k' then (k', v) :: r else (k', v') :: ns_set k v r
+  end.
+
+Fixpoint ns_del (k : string) (d : ns) : ns :=
+  match d with
+  | [] => []
+  | (k', v') :: r => if String.eqb k k' then r else (k', v') :: ns_del k r
+  end.
+
+(** Python [d.update(e)]. *)
+Definition ns_update (d e : ns) : ns := fold_left (fun acc kv => ns_set (fst kv) (snd kv) acc) e d.
+
+Definition ns_keys (d : ns) : list string := map fst d.
+
+Fixpoint mem (x : string) (l : list string) : bool :=
+  match l with [] => false | y :: r => String.eqb x y || mem x r end.
+
+(** * Frames: fast locals / cells of function and comprehension scopes.
+    [None] = declared (by the compiler's classification) but not yet bound. *)
+Record frame := mk_frame { fk : bool (* true: function scope; false: inlined comprehension *);
+                           fvars : list (string * option value) }.
+
+Fixpoint fv_get (x : string) (l : list (string * option value)) : option (option value) :=
+  match l with
+  | [] => None
+  | (y, v) :: r => if String.eqb x y then Some v else fv_get x r
+  end.
+
+Fixpoint fv_set (x : string) (v : value) (l : list (string * option value)) : list (string * option value) :=
+  match l with
+  | [] => []
+  | (y, w) :: r => if String.eqb x y then (y, Some v) :: r else (y, w) :: fv_set x v r
+  end.
+
+Inductive lres := LFound (v : value) | LUnboundLocal | LUnboundFree | LNotLocal.
+
+(** lexical lookup through the enclosing function/comprehension scopes, innermost first;
+    [crossed] = a function boundary lies between the reference and the frame *)
+Fixpoint find_local (x : string) (fs : list frame) (crossed : bool) : lres :=
+  match fs with
+  | [] => LNotLocal
+  | f :: r =>
+      match fv_get x (fvars f) with
+      | Some (Some v) => LFound v
+      | Some None => if crossed then LUnboundFree else LUnboundLocal
+      | None => find_local x r (crossed || fk f)
+      end
+  end.
+
+(** a binding made by [:=] or by a [for] target goes to the nearest frame declaring the name,
+    not looking past the innermost function scope *)
+Fixpoint set_local (x : string) (v : value) (fs : list frame) : option (list frame) :=
+  match fs with
+  | [] => None
+  | f :: r =>
+      match fv_get x (fvars f) with
+      | Some _ => Some (mk_frame (fk f) (fv_set x v (fvars f)) :: r)
+      | None => if fk f then None
+                else match set_local x v r with Some r' => Some (f :: r') | None => None end
+      end
+  end.
+
+(** * Machine state *)
+Record state := mk_state {
+  ctx : ns;              (* the pypyr context = maps[0] of the eval namespace *)
+  imps : ns;             (* Context._pystring_globals = maps[1]: names imported through pyimport *)
+  nsd : ns;              (* raw dict storage of the eval namespace object, besides __builtins__ *)
+  g : ns;                (* the exec globals: an exact dict, shallow copy of the context *)
+  cns : ns;              (* namespace of the class body being executed *)
+  frames : list frame;
+  heap : list obj;       (* object identity = index *)
+  saves : list ns        (* ghost: the dicts save(...) handed to context.update, oldest first *)
+}.
+
+Definition set_ctx (c : ns) (s : state) := mk_state c (imps s) (nsd s) (g s) (cns s) (frames s) (heap s) (saves s).
+Definition set_nsd (c : ns) (s : state) := mk_state (ctx s) (imps s) c (g s) (cns s) (frames s) (heap s) (saves s).
+Definition set_g (c : ns) (s : state) := mk_state (ctx s) (imps s) (nsd s) c (cns s) (frames s) (heap s) (saves s).
+Definition set_cns (c : ns) (s : state) := mk_state (ctx s) (imps s) (nsd s) (g s) c (frames s) (heap s) (saves s).
+Definition set_frames (f : list frame) (s : state) := mk_state (ctx s) (imps s) (nsd s) (g s) (cns s) f (heap s) (saves s).
+Definition set_heap (h : list obj) (s : state) := mk_state (ctx s) (imps s) (nsd s) (g s) (cns s) (frames s) h (saves s).
+Definition set_ctx_saves (c : ns) (l : list ns) (s : state) :=
+  mk_state c (imps s) (nsd s) (g s) (cns s) (frames s) (heap s) l.
+
+(** * State-and-error monad. An error keeps the state reached so far (effects before a raise persist). *)
+Definition M (A : Type) := state -> res A * state.
+Definition ret {A} (a : A) : M A := fun s => (Ok a, s).
+Definition raise {A} (n m : string) : M A := fun s => (Err n m, s).
+Definition unsup {A} : M A := fun s => (Unsup, s).
+Definition bindM {A B} (m : M A) (f : A -> M B) : M B :=
+  fun s => match m s with
+           | (Ok a, s') => f a s'
+           | (Err n msg, s') => (Err n msg, s')
+           | (Unsup, s') => (Unsup, s')
+           end.
+Notation "'do' x <~ m ;; k" := (bindM m (fun x => k))
+  (at level 200, x name, m at level 100, k at level 200, right associativity).
+
+Definition get_st : M state := fun s => (Ok s, s).
+Definition modify (f : state -> state) : M unit := fun s => (Ok tt, f s).
+
+(** * Environment: the static facts the compiler fixes for a piece of code *)
+Inductive gkind := GChain | GPlain.
+Record env := mk_env {
+  gk : gkind;                    (* GChain: eval namespace object; GPlain: exact-dict exec globals *)
+  gex : list string;             (* names declared global at module level: [:=] targets inside top-level comprehensions *)
+  cls : bool;                    (* the code is a class body: LOAD_NAME consults the class namespace first *)
+  infn : bool;                   (* the code is (inside) a function body: free names are LOAD_GLOBAL *)
+  mods : list (string * ns);     (* abstract module table: importable modules and their attributes *)
+  bi : ns                        (* the builtins namespace *)
+}.
+Definition in_function (E : env) := mk_env (gk E) (gex E) false true (mods E) (bi E).
+Definition in_class (E : env) := mk_env (gk E) (gex E) true (infn E) (mods E) (bi E).
+
+Definition name_error (x : string) : string := "name '" ++ x ++ "' is not defined".
+Definition unbound_local (x : string) : string :=
+  "cannot access local variable '" ++ x ++ "' where it is not associated with a value".
+Definition unbound_free (x : string) : string :=
+  "cannot access free variable '" ++ x ++ "' where it is not associated with a value in enclosing scope".
+
+(** ChainMap.__getitem__ over maps = [context; imports] *)
+Definition chain_get (x : string) (s : state) : option value :=
+  match ns_get x (ctx s) with Some v => Some v | None => ns_get x (imps s) end.
+
+Definition from_builtins {A} (E : env) (x : string) (s : A) : res value * A :=
+  match ns_get x (bi E) with
+  | Some v => (Ok v, s)
+  | None => (Err "NameError" (name_error x), s)
+  end.
+
+(** LOAD_GLOBAL: globals.__getitem__ (PyObject_GetItem on a dict subclass), then builtins.
+    The raw dict storage of the namespace object is NOT consulted. *)
+Definition load_global (E : env) (x : string) : M value := fun s =>
+  match (match gk E with GChain => chain_get x s | GPlain => ns_get x (g s) end) with
+  | Some v => (Ok v, s)
+  | None => from_builtins E x s
+  end.
+
+(** LOAD_NAME: locals mapping (class namespace / the namespace object's __getitem__), then the
+    raw dict storage of globals, then builtins. *)
+Definition load_name (E : env) (x : string) : M value := fun s =>
+  match (if cls E then ns_get x (cns s) else None) with
+  | Some v => (Ok v, s)
+  | None =>
+      match (match gk E with
+             | GChain => match chain_get x s with Some v => Some v | None => ns_get x (nsd s) end
+             | GPlain => ns_get x (g s)
+             end) with
+      | Some v => (Ok v, s)
+      | None => from_builtins E x s
+      end
+  end.
+
+(** STORE_NAME: locals.__setitem__; for the eval namespace that is ChainMap.__setitem__,
+    i.e. maps[0][x] = v — the context itself. *)
+Definition store_name (E : env) (x : string) (v : value) : M unit :=
+  if cls E then modify (fun s => set_cns (ns_set x v (cns s)) s)
+  else match gk E with
+       | GChain => modify (fun s => set_ctx (ns_set x v (ctx s)) s)
+       | GPlain => modify (fun s => set_g (ns_set x v (g s)) s)
+       end.
+
+(** STORE_GLOBAL: PyDict_SetItem on globals — the raw dict storage. *)
+Definition store_global (E : env) (x : string) (v : value) : M unit :=
+  match gk E with
+  | GChain => modify (fun s => set_nsd (ns_set x v (nsd s)) s)
+  | GPlain => modify (fun s => set_g (ns_set x v (g s)) s)
+  end.
+
+Definition load_var (E : env) (x : string) : M value := fun s =>
+  match find_local x (frames s) false with
+  | LFound v => (Ok v, s)
+  | LUnboundLocal => (Err "UnboundLocalError" (unbound_local x), s)
+  | LUnboundFree => (Err "NameError" (unbound_free x), s)
+  | LNotLocal => if infn E || mem x (gex E) then load_global E x s else load_name E x s
+  end.
+
+Definition store_var (E : env) (x : string) (v : value) : M unit := fun s =>
+  match set_local x v (frames s) with
+  | Some fs => (Ok tt, set_frames fs s)
+  | None => if infn E || mem x (gex E) then store_global E x v s else store_name E x v s
+  end.
+
+(** * Heap primitives *)
+Definition alloc (o : obj) : M nat := fun s => (Ok (length (heap s)), set_heap (heap s ++ [o]) s).
+
+Fixpoint list_upd {A} (l : list A) (i : nat) (x : A) : list A :=
+  match l, i with
+  | [], _ => []
+  | _ :: r, O => x :: r
+  | y :: r, S j => y :: list_upd r j x
+  end.
+
+Definition heap_extend (r : nat) (vs : list value) : M unit := fun s =>
+  match nth_error (heap s) r with
+  | Some (OList items) => (Ok tt, set_heap (list_upd (heap s) r (OList (items ++ vs))) s)
+  | _ => (Unsup, s)
+  end.
+
+Definition list_items (r : nat) (s : state) : option (list value) :=
+  match nth_error (heap s) r with Some (OList items) => Some items | _ => None end.
+
+(** * Operators *)
+Definition as_int (v : value) : option Z :=
+  match v with
+  | PInt z => Some z
+  | PBool b => Some (if b then 1 else 0)%Z
+  | _ => None
+  end.
+
+Fixpoint veq (n : nat) (h : list obj) (a b : value) : option bool :=
+  match n with
+  | O => None
+  | S n' =>
+      match a, b with
+      | PRef i, PRef j =>
+          if Nat.eqb i j then Some true
+          else match nth_error h i, nth_error h j with
+               | Some (OList xs), Some (OList ys) =>
+                   (fix go (xs ys : list value) : option bool :=
+                      match xs, ys with
+                      | [], [] => Some true
+                      | x :: xr, y :: yr =>
+                          match veq n' h x y with Some true => go xr yr | r => r end
+                      | _, _ => Some false
+                      end) xs ys
+               | Some _, Some _ => Some false
+               | _, _ => None
+               end
+      | PNone, PNone => Some true
+      | PStr s, PStr t => Some (String.eqb s t)
+      | PNative s, PNative t => Some (String.eqb s t)
+      | PModule s, PModule t => Some (String.eqb s t)
+      | _, _ =>
+          match as_int a, as_int b with
+          | Some x, Some y => Some (Z.eqb x y)
+          | _, _ => Some false
+          end
+      end
+  end.
+
+Definition str_ltb (s t : string) : bool :=
+  match String.compare s t with Lt => true | _ => false end.
+
+Definition EQ_FUEL : nat := 40.
+
+Definition bin_add (a b : value) : M value :=
+  match a, b with
+  | PStr s, PStr t => ret (PStr (s ++ t))
+  | PRef i, PRef j => fun s =>
+      match list_items i s, list_items j s with
+      | Some xs, Some ys => (do r <~ alloc (OList (xs ++ ys)) ;; ret (PRef r)) s
+      | _, _ => (Err "TypeError" "", s)
+      end
+  | _, _ =>
+      match as_int a, as_int b with
+      | Some x, Some y => ret (PInt (x + y))
+      | _, _ => raise "TypeError" ""
+      end
+  end.
+
+Definition do_binop (op : binop) (a b : value) : M value :=
+  match op with
+  | BAdd => bin_add a b
+  | BEq => fun s => match veq EQ_FUEL (heap s) a b with
+                    | Some r => (Ok (PBool r), s)
+                    | None => (Unsup, s)
+                    end
+  | BLt =>
+      match a, b with
+      | PStr s, PStr t => ret (PBool (str_ltb s t))
+      | PRef i, PRef j => fun s =>
+          match list_items i s, list_items j s with
+          | Some _, Some _ => (Unsup, s)          (* list ordering: outside the fragment *)
+          | _, _ => (Err "TypeError" "", s)
+          end
+      | _, _ =>
+          match as_int a, as_int b with
+          | Some x, Some y => ret (PBool (x <? y)%Z)
+          | _, _ => raise "TypeError" ""
+          end
+      end
+  end.
+
+(** [x += e]: lists are extended in place (list.__iadd__) and the same object is rebound *)
+Definition inplace_add (a b : value) : M value :=
+  match a, b with
+  | PRef i, PRef j => fun s =>
+      match list_items i s, list_items j s with
+      | Some _, Some ys => (do _ <~ heap_extend i ys ;; ret (PRef i)) s
+      | Some _, None => (Err "TypeError" "", s)
+      | None, _ => (Err "TypeError" "", s)
+      end
+  | PRef i, PStr _ => fun s =>
+      match list_items i s with Some _ => (Unsup, s) | None => (Err "TypeError" "", s) end
+  | _, _ => bin_add a b
+  end.
+
+(** * Native callables of the fragment *)
+Fixpoint sum_ints (vs : list value) (acc : Z) : option Z :=
+  match vs with
+  | [] => Some acc
+  | v :: r => match as_int v with Some z => sum_ints r (acc + z)%Z | None => None end
+  end.
+
+Fixpoint gcd_ints (vs : list value) (acc : Z) : option Z :=
+  match vs with
+  | [] => Some acc
+  | v :: r => match as_int v with Some z => gcd_ints r (Z.gcd acc z) | None => None end
+  end.
+
+Definition call_native (name : string) (vs : list value) : M value :=
+  if String.eqb name "len" then
+    match vs with
+    | [PStr s] => ret (PInt (Z.of_nat (String.length s)))
+    | [PRef r] => fun s => match list_items r s with
+                           | Some items => (Ok (PInt (Z.of_nat (length items))), s)
+                           | None => (Err "TypeError" "", s)
+                           end
+    | _ => raise "TypeError" ""
+    end
+  else if String.eqb name "abs" then
+    match vs with
+    | [v] => match as_int v with Some z => ret (PInt (Z.abs z)) | None => raise "TypeError" "" end
+    | _ => raise "TypeError" ""
+    end
+  else if String.eqb name "list" then
+    match vs with
+    | [] => do r <~ alloc (OList []) ;; ret (PRef r)
+    | [PRef i] => fun s => match list_items i s with
+                           | Some items => (do r <~ alloc (OList items) ;; ret (PRef r)) s
+                           | None => (Err "TypeError" "", s)
+                           end
+    | [PStr _] => unsup
+    | _ => raise "TypeError" ""
+    end
+  else if String.eqb name "sum" then
+    match vs with
+    | [PRef i] => fun s => match list_items i s with
+                           | Some items => match sum_ints items 0%Z with
+                                           | Some z => (Ok (PInt z), s)
+                                           | None => (Err "TypeError" "", s)
+                                           end
+                           | None => (Err "TypeError" "", s)
+                           end
+    | [_; _] => unsup
+    | _ => raise "TypeError" ""
+    end
+  else if String.eqb name "math.gcd" then
+    match gcd_ints vs 0%Z with Some z => ret (PInt z) | None => raise "TypeError" "" end
+  else if String.eqb name "<builtins>" then raise "TypeError" ""
+  else unsup.
+
+(** * Compile-time scope classification *)
+
+(** targets of [:=] that bind in the function (or module) scope directly containing [e]:
+    comprehensions are looked into (PEP 572), lambda bodies are not *)
+Fixpoint wtargets (e : expr) : list string :=
+  match e with
+  | XWalrus x e1 => x :: wtargets e1
+  | XBin _ a b => wtargets a ++ wtargets b
+  | XList es => flat_map wtargets es
+  | XLam _ _ args => flat_map wtargets args
+  | XComp elt cl => wtargets elt ++ flat_map (fun c => match c with (_, it) => wtargets it end) cl
+  | XCall f args => wtargets f ++ flat_map wtargets args
+  | XAttr e1 _ => wtargets e1
+  | XAppend l x => wtargets l ++ wtargets x
+  | _ => []
+  end.
+
+(** names the symbol table marks global-explicit at module level: [:=] targets inside
+    comprehensions that are not inside a lambda *)
+Fixpoint gexs (e : expr) : list string :=
+  match e with
+  | XWalrus _ e1 => gexs e1
+  | XBin _ a b => gexs a ++ gexs b
+  | XList es => flat_map gexs es
+  | XLam _ _ args => flat_map gexs args
+  | XComp elt cl => wtargets elt ++ flat_map (fun c => match c with (_, it) => (wtargets it ++ gexs it)%list end) cl
+  | XCall f args => gexs f ++ flat_map gexs args
+  | XAttr e1 _ => gexs e1
+  | XAppend l x => gexs l ++ gexs x
+  | _ => []
+  end.
+
+Fixpoint nodup_str (l : list string) : bool :=
+  match l with [] => true | x :: r => negb (mem x r) && nodup_str r end.
+
+(** programs CPython rejects at compile time (or that touch [__builtins__]) are outside the model:
+    [:=] in a comprehension iterable, [:=] rebinding an iteration variable, [:=] in a
+    comprehension in a class body, duplicate parameters *)
+Fixpoint wf_expr (iters : list string) (in_iter in_cls : bool) (e : expr) : bool :=
+  match e with
+  | XName x => negb (String.eqb x "__builtins__")
+  | XWalrus x e1 => negb in_iter && negb (mem x iters) && negb (String.eqb x "__builtins__")
+                    && wf_expr iters in_iter in_cls e1
+  | XBin _ a b => wf_expr iters in_iter in_cls a && wf_expr iters in_iter in_cls b
+  | XList es => forallb (wf_expr iters in_iter in_cls) es
+  | XLam ps body args =>
+      nodup_str ps && negb (mem "__builtins__" ps)
+      && forallb (wf_expr iters in_iter in_cls) args && wf_expr [] in_iter false body
+  | XComp elt cl =>
+      let its := (map fst cl ++ iters)%list in
+      negb (mem "__builtins__" (map fst cl))
+      && negb (in_cls && negb (is_nil (wtargets e)))
+      && match cl with
+         | [] => false
+         | (_, it1) :: rest =>
+             wf_expr iters true in_cls it1
+             && forallb (fun c => match c with (_, it) => wf_expr its true in_cls it end) rest
+         end
+      && wf_expr its in_iter in_cls elt
+  | XCall f args => wf_expr iters in_iter in_cls f && forallb (wf_expr iters in_iter in_cls) args
+  | XAttr e1 _ => wf_expr iters in_iter in_cls e1
+  | XAppend l x => wf_expr iters in_iter in_cls l && wf_expr iters in_iter in_cls x
+  | _ => true
+  end.
+
+(** * Expression evaluation *)
+Fixpoint eval_list (ev1 : expr -> M value) (es : list expr) : M (list value) :=
+  match es with
+  | [] => ret []
+  | e :: r => do v <~ ev1 e ;; do vs <~ eval_list ev1 r ;; ret (v :: vs)
+  end.
+
+Definition fn_frame (ps : list string) (vs : list value) (body : expr) : frame :=
+  mk_frame true (combine ps (map Some vs)
+                 ++ map (fun x => (x, None)) (filter (fun x => negb (mem x ps)) (wtargets body))).
+
+(** (lambda ps: body)(vs): a new function scope whose lexical parent is the current one *)
+Definition call_lambda (ev : env -> expr -> M value) (E : env) (ps : list string) (body : expr)
+           (vs : list value) : M value :=
+  if negb (Nat.eqb (length ps) (length vs)) then raise "TypeError" ""
+  else
+    do _ <~ modify (fun s => set_frames (fn_frame ps vs body :: frames s) s) ;;
+    do v <~ ev (in_function E) body ;;
+    do _ <~ modify (fun s => set_frames (tl (frames s)) s) ;;
+    ret v.
+
+(** f(vs) for a module-level [def]: no enclosing function scopes, whoever the caller is *)
+Definition call_def (ev : env -> expr -> M value) (E : env) (ps : list string) (body : expr)
+           (vs : list value) : M value :=
+  if negb (Nat.eqb (length ps) (length vs)) then raise "TypeError" ""
+  else
+    do s0 <~ get_st ;;
+    do _ <~ modify (set_frames [fn_frame ps vs body]) ;;
+    do v <~ ev (in_function E) body ;;
+    do _ <~ modify (set_frames (frames s0)) ;;
+    ret v.
+
+Definition apply_value (ev : env -> expr -> M value) (E : env) (fv : value) (vs : list value) : M value :=
+  match fv with
+  | PNative n => call_native n vs
+  | PRef r => fun s =>
+      match nth_error (heap s) r with
+      | Some (OFunc _ ps body) => call_def ev E ps body vs s
+      | Some (OList _) => (Err "TypeError" "", s)
+      | _ => (Unsup, s)
+      end
+  | _ => raise "TypeError" ""
+  end.
+
+Definition bind_local (x : string) (v : value) : M unit := fun s =>
+  match set_local x v (frames s) with
+  | Some fs => (Ok tt, set_frames fs s)
+  | None => (Unsup, s)
+  end.
+
+(** FOR_ITER over a list object: by index against the live object *)
+Fixpoint loop_list (n : nat) (r idx : nat) (body : value -> M unit) : M unit :=
+  match n with
+  | O => unsup
+  | S n' => fun s =>
+      match list_items r s with
+      | Some items =>
+          match nth_error items idx with
+          | Some v => (do _ <~ body v ;; loop_list n' r (S idx) body) s
+          | None => (Ok tt, s)
+          end
+      | None => (Unsup, s)
+      end
+  end.
+
+Definition iterate (lb : nat) (v : value) (body : value -> M unit) : M unit :=
+  match v with
+  | PRef r => fun s =>
+      match nth_error (heap s) r with
+      | Some (OList _) => loop_list lb r 0 body s
+      | Some _ => (Err "TypeError" "", s)
+      | None => (Unsup, s)
+      end
+  | PStr _ => unsup
+  | _ => raise "TypeError" ""
+  end.
+
+Fixpoint comp_rest (ev1 : expr -> M value) (lb : nat) (cl : list (string * expr)) (emit : M unit) : M unit :=
+  match cl with
+  | [] => emit
+  | (x, it) :: r =>
+      do v <~ ev1 it ;;
+      iterate lb v (fun item => do _ <~ bind_local x item ;; comp_rest ev1 lb r emit)
+  end.
+
+(** [elt for x1 in it1 for x2 in it2 ...]: the first iterable is evaluated in the enclosing scope;
+    the targets are locals of the comprehension; in a class body the comprehension is a real
+    function scope (free names skip the class namespace) *)
+Definition eval_comp (ev : env -> expr -> M value) (lb : nat) (E : env) (elt : expr)
+           (cl : list (string * expr)) : M value :=
+  match cl with
+  | [] => unsup
+  | (x1, it1) :: rest =>
+      do v1 <~ ev E it1 ;;
+      do r <~ alloc (OList []) ;;
+      let E' := if cls E then in_function E else E in
+      do _ <~ modify (fun s => set_frames (mk_frame (cls E) (map (fun c => (fst c, None)) cl) :: frames s) s) ;;
+      do _ <~ iterate lb v1 (fun item =>
+             do _ <~ bind_local x1 item ;;
+             comp_rest (ev E') lb rest (do v <~ ev E' elt ;; heap_extend r [v])) ;;
+      do _ <~ modify (fun s => set_frames (tl (frames s)) s) ;;
+      ret (PRef r)
+  end.
+
+Fixpoint mod_get (m : string) (t : list (string * ns)) : option ns :=
+  match t with
+  | [] => None
+  | (m', a) :: r => if String.eqb m m' then Some a else mod_get m r
+  end.
+
+Definition get_attr (E : env) (v : value) (a : string) : M value :=
+  match v with
+  | PModule m =>
+      match mod_get m (mods E) with
+      | Some attrs => match ns_get a attrs with
+                      | Some x => ret x
+                      | None => raise "AttributeError" ""
+                      end
+      | None => unsup
+      end
+  | PRef r => fun s =>
+      match nth_error (heap s) r with
+      | Some (OClass _ attrs) => match ns_get a attrs with
+                                 | Some x => (Ok x, s)
+                                 | None => (Err "AttributeError" "", s)
+                                 end
+      | Some (OFunc _ _ _) => (Err "AttributeError" "", s)
+      | Some (OList _) => if String.eqb a "append" then (Unsup, s) else (Err "AttributeError" "", s)
+      | None => (Unsup, s)
+      end
+  | PNative n => if String.eqb n "list" && String.eqb a "append" then unsup else raise "AttributeError" ""
+  | _ => raise "AttributeError" ""
+  end.
+
+(** l.append(x): the attribute is loaded before the argument is evaluated *)
+Definition check_list (v : value) : M nat :=
+  match v with
+  | PRef r => fun s =>
+      match nth_error (heap s) r with
+      | Some (OList _) => (Ok r, s)
+      | Some (OFunc _ _ _) => (Err "AttributeError" "", s)
+      | _ => (Unsup, s)
+      end
+  | PNative n => if String.eqb n "list" then unsup else raise "AttributeError" ""
+  | _ => raise "AttributeError" ""
+  end.
+
+Fixpoint eval (fuel : nat) (E : env) (e : expr) {struct fuel} : M value :=
+  match fuel with
+  | O => unsup
+  | S f =>
+      let ev := eval f in
+      match e with
+      | XNone => ret PNone
+      | XBool b => ret (PBool b)
+      | XInt z => ret (PInt z)
+      | XStr s => ret (PStr s)
+      | XName x => load_var E x
+      | XBin op a b => do va <~ ev E a ;; do vb <~ ev E b ;; do_binop op va vb
+      | XList es => do vs <~ eval_list (ev E) es ;; do r <~ alloc (OList vs) ;; ret (PRef r)
+      | XLam ps body args => do vs <~ eval_list (ev E) args ;; call_lambda ev E ps body vs
+      | XComp elt cl => eval_comp ev f E elt cl
+      | XWalrus x e1 => do v <~ ev E e1 ;; do _ <~ store_var E x v ;; ret v
+      | XCall fe args => do fv <~ ev E fe ;; do vs <~ eval_list (ev E) args ;; apply_value ev E fv vs
+      | XAttr e1 a => do v <~ ev E e1 ;; get_attr E v a
+      | XAppend l x => do lv <~ ev E l ;; do r <~ check_list lv ;; do xv <~ ev E x ;;
+                       do _ <~ heap_extend r [xv] ;; ret PNone
+      end
+  end.
+
+(** * Statements (module level of a pypyr.steps.py block) *)
+Definition save_error (x : string) : string :=
+  "Trying to save '" ++ x ++ "', but can't find it in the py step scope. Remember it should be save('key'), not save(key) - mind the quotes.".
+
+(** d[arg] = namespace[arg] for each positional argument, in order *)
+Fixpoint collect_saved (names : list string) (gl : ns) (d : ns) : string + ns :=
+  match names with
+  | [] => inr d
+  | x :: r => match ns_get x gl with
+              | Some v => collect_saved r gl (ns_set x v d)
+              | None => inl x
+              end
+  end.
+
+(** the save closure of pypyr.steps.py: d from the exec namespace, d.update(kwargs), context.update(d) *)
+Definition do_save (names : list string) (kvs : ns) : M unit := fun s =>
+  match collect_saved names (g s) [] with
+  | inl x => (Err "KeyError" (save_error x), s)
+  | inr d => let d' := ns_update d kvs in
+             (Ok tt, set_ctx_saves (ns_update (ctx s) d') (saves s ++ [d']) s)
+  end.
+
+Fixpoint eval_kws (ev1 : expr -> M value) (kws : list (string * expr)) : M ns :=
+  match kws with
+  | [] => ret []
+  | (k, e) :: r => do v <~ ev1 e ;; do vs <~ eval_kws ev1 r ;; ret ((k, v) :: vs)
+  end.
+
+Fixpoint class_body (ev1 : expr -> M value) (attrs : list (string * expr)) : M unit :=
+  match attrs with
+  | [] => ret tt
+  | (a, e) :: r => do v <~ ev1 e ;; do _ <~ modify (fun s => set_cns (ns_set a v (cns s)) s) ;; class_body ev1 r
+  end.
+
+Definition exec_stmt (fuel : nat) (E : env) (st : stmt) : M unit :=
+  match st with
+  | SAssign x e => do v <~ eval fuel E e ;; store_var E x v
+  | SAug x e => do old <~ load_var E x ;; do v <~ eval fuel E e ;; do r <~ inplace_add old v ;; store_var E x r
+  | SImport m =>
+      match mod_get m (mods E) with
+      | Some _ => store_var E m (PModule m)
+      | None => raise "ModuleNotFoundError" ""
+      end
+  | SFrom m n a =>
+      match mod_get m (mods E) with
+      | Some attrs => match ns_get n attrs with
+                      | Some v => store_var E a v
+                      | None => raise "ImportError" ""
+                      end
+      | None => raise "ModuleNotFoundError" ""
+      end
+  | SDef f ps body => do r <~ alloc (OFunc f ps body) ;; store_var E f (PRef r)
+  | SClass c attrs =>
+      do _ <~ modify (set_cns []) ;;
+      do _ <~ class_body (eval fuel (in_class E)) attrs ;;
+      do s1 <~ get_st ;;
+      do r <~ alloc (OClass c (cns s1)) ;;
+      store_var E c (PRef r)
+  | SSave names kws =>
+      do fv <~ load_var E "save" ;;
+      do kvs <~ eval_kws (eval fuel E) kws ;;
+      match fv with
+      | PNative n => if String.eqb n "<save>" then do_save names kvs
+                     else if String.eqb n "<builtins>" then raise "TypeError" "" else unsup
+      | PRef _ => unsup
+      | _ => raise "TypeError" ""
+      end
+  | SExpr e => do _ <~ eval fuel E e ;; ret tt
+  | SDel x => fun s =>
+      match gk E with
+      | GPlain => match ns_get x (g s) with
+                  | Some _ => (Ok tt, set_g (ns_del x (g s)) s)
+                  | None => (Err "NameError" (name_error x), s)
+                  end
+      | GChain => (Unsup, s)
+      end
+  end.
+
+Fixpoint exec_block (fuel : nat) (E : env) (b : list stmt) : M unit :=
+  match b with
+  | [] => ret tt
+  | st :: r => do _ <~ exec_stmt fuel E st ;; exec_block fuel E r
+  end.
+
+(** * pypyr's part: how the namespaces are built *)
+
+(** Context.__init__: _pystring_namespace = _ChainMapPretendDict(self, self._pystring_globals) *)
+Definition eval_state (c i d : ns) (h : list obj) : state := mk_state c i d [] [] [] h [].
+Definition eval_env (mt : list (string * ns)) (b : ns) (e : expr) : env :=
+  mk_env GChain (gexs e) false false mt b.
+
+(** pypyr.steps.py: globals = context.copy(); globals['__builtins__'] = ...; globals['save'] = save *)
+Definition exec_globals (c : ns) : ns :=
+  ns_set "save" (PNative "<save>") (ns_set "__builtins__" (PNative "<builtins>") c).
+Definition exec_state (c : ns) (h : list obj) : state := mk_state c [] [] (exec_globals c) [] [] h [].
+Definition exec_env (mt : list (string * ns)) (b : ns) : env := mk_env GPlain [] false false mt b.
+
+Definition FUEL : nat := 80.
+
+(** Context.get_eval_string(src) on a context in state [s] *)
+Definition run_eval (mt : list (string * ns)) (b : ns) (e : expr) (s : state) : res value * state :=
+  if wf_expr [] false false e
+  then eval FUEL (eval_env mt b e) e (set_frames [] s)
+  else (Unsup, s).
+
+Definition wf_stmt (st : stmt) : bool :=
+  match st with
+  | SAssign x e | SAug x e => negb (String.eqb x "__builtins__") && wf_expr [] false false e
+  | SImport m => negb (String.eqb m "__builtins__")
+  | SFrom _ _ a => negb (String.eqb a "__builtins__")
+  | SDef f ps body => negb (String.eqb f "__builtins__") && nodup_str ps && negb (mem "__builtins__" ps)
+                      && wf_expr [] false false body
+  | SClass c attrs => negb (String.eqb c "__builtins__")
+                      && forallb (fun ae => match ae with (_, e) => wf_expr [] false true e end) attrs
+  | SSave names kws => negb (mem "__builtins__" names) && negb (mem "save" names) && nodup_str (map fst kws)
+                       && forallb (fun ke => match ke with (_, e) => wf_expr [] false false e end) kws
+  | SExpr e => wf_expr [] false false e
+  | SDel x => negb (String.eqb x "__builtins__")
+  end.
+
+(** pypyr.steps.py.run_step on a context [c] (which holds the source under 'py') *)
+Definition run_exec (mt : list (string * ns)) (b : ns) (blk : list stmt) (c : ns) (h : list obj)
+  : res unit * state :=
+  if forallb wf_stmt blk
+  then exec_block FUEL (exec_env mt b) blk (exec_state c h)
+  else (Unsup, exec_state c h).
+
+(** pypyr.steps.pyimport: the import statements are resolved into a dict that is merged into
+    Context._pystring_globals — never into the context *)
+Fixpoint pyimport_ns (mt : list (string * ns)) (b : list stmt) (acc : ns) : option ns :=
+  match b with
+  | [] => Some acc
+  | SImport m :: r => match mod_get m mt with
+                      | Some _ => pyimport_ns mt r (ns_set m (PModule m) acc)
+                      | None => None
+                      end
+  | SFrom m n a :: r => match mod_get m mt with
+                        | Some attrs => match ns_get n attrs with
+                                        | Some v => pyimport_ns mt r (ns_set a v acc)
+                                        | None => None
+                                        end
+                        | None => None
+                        end
+  | _ => None
+  end.
+
+(** * Canonical observations (what the harness sees of the real objects):
+    values by structure, heap objects numbered — pre-existing ones by their given index, new
+    ones from 1000 in first-seen order; an object met again is a back reference. *)
+Inductive cval : Type :=
+| CNone | CBool (b : bool) | CInt (z : Z) | CStr (s : string)
+| CNative (s : string) | CMod (s : string)
+| CList (id : nat) (items : list cval)
+| CBack (id : nat)
+| CFunc (id : nat) (name : string)
+| CClass (id : nat) (name : string) (attrs : list (string * cval)).
+
+Record cst := mk_cst { c_map : list (nat * nat); c_done : list nat; c_next : nat }.
+
+Fixpoint nat_assoc (k : nat) (l : list (nat * nat)) : option nat :=
+  match l with [] => None | (a, b) :: r => if Nat.eqb k a then Some b else nat_assoc k r end.
+Fixpoint nat_mem (k : nat) (l : list nat) : bool :=
+  match l with [] => false | a :: r => Nat.eqb k a || nat_mem k r end.
+
+Definition canon_id (n0 : nat) (i : nat) (cs : cst) : nat * cst :=
+  if Nat.ltb i n0 then (i, cs)
+  else match nat_assoc i (c_map cs) with
+       | Some c => (c, cs)
+       | None => (c_next cs, mk_cst ((i, c_next cs) :: c_map cs) (c_done cs) (S (c_next cs)))
+       end.
+
+Fixpoint canon (fuel : nat) (n0 : nat) (h : list obj) (v : value) (cs : cst) : option (cval * cst) :=
+  match fuel with
+  | O => None
+  | S f =>
+      match v with
+      | PNone => Some (CNone, cs)
+      | PBool b => Some (CBool b, cs)
+      | PInt z => Some (CInt z, cs)
+      | PStr s => Some (CStr s, cs)
+      | PNative s => Some (CNative s, cs)
+      | PModule s => Some (CMod s, cs)
+      | PRef i =>
+          let '(c, cs1) := canon_id n0 i cs in
+          match nth_error h i with
+          | None => None
+          | Some (OFunc name _ _) => Some (CFunc c name, cs1)
+          | Some o =>
+              if nat_mem c (c_done cs1) then Some (CBack c, cs1)
+              else
+                let cs2 := mk_cst (c_map cs1) (c :: c_done cs1) (c_next cs1) in
+                match o with
+                | OList items =>
+                    match (fix go (l : list value) (cs : cst) : option (list cval * cst) :=
+                             match l with
+                             | [] => Some ([], cs)
+                             | x :: r => match canon f n0 h x cs with
+                                         | Some (cx, cs') =>
+                                             match go r cs' with
+                                             | Some (cr, cs'') => Some (cx :: cr, cs'')
+                                             | None => None
+                                             end
+                                         | None => None
+                                         end
+                             end) items cs2 with
+                    | Some (ci, cs3) => Some (CList c ci, cs3)
+                    | None => None
+                    end
+                | OClass name attrs =>
+                    match (fix go (l : ns) (cs : cst) : option (list (string * cval) * cst) :=
+                             match l with
+                             | [] => Some ([], cs)
+                             | (k, x) :: r => match canon f n0 h x cs with
+                                              | Some (cx, cs') =>
+                                                  match go r cs' with
+                                                  | Some (cr, cs'') => Some ((k, cx) :: cr, cs'')
+                                                  | None => None
+                                                  end
+                                              | None => None
+                                              end
+                             end) attrs cs2 with
+                    | Some (ca, cs3) => Some (CClass c name ca, cs3)
+                    | None => None
+                    end
+                | OFunc name _ _ => Some (CFunc c name, cs1)
+                end
+          end
+      end
+  end.
+
+Definition CANON_FUEL : nat := 30.
+
+Fixpoint canon_ns (n0 : nat) (h : list obj) (d : ns) (cs : cst) : option (list (string * cval) * cst) :=
+  match d with
+  | [] => Some ([], cs)
+  | (k, v) :: r =>
+      match canon CANON_FUEL n0 h v cs with
+      | Some (cv, cs') => match canon_ns n0 h r cs' with
+                          | Some (cr, cs'') => Some ((k, cv) :: cr, cs'')
+                          | None => None
+                          end
+      | None => None
+      end
+  end.
+
+Fixpoint canon_results (n0 : nat) (h : list obj) (rs : list (res value)) (cs : cst)
+  : option (list (res cval) * cst) :=
+  match rs with
+  | [] => Some ([], cs)
+  | r :: rest =>
+      match (match r with
+             | Ok v => match canon CANON_FUEL n0 h v cs with
+                       | Some (cv, cs') => Some (Ok cv, cs')
+                       | None => None
+                       end
+             | Err n m => Some (Err n m, cs)
+             | Unsup => None
+             end) with
+      | Some (cr, cs') => match canon_results n0 h rest cs' with
+                          | Some (crs, cs'') => Some (cr :: crs, cs'')
+                          | None => None
+                          end
+      | None => None
+      end
+  end.
+
+Record obs := mk_obs { o_res : list (res cval); o_ctx : list (string * cval);
+                       o_imps : list (string * cval); o_nsd : list (string * cval) }.
+
+Definition observe (n0 : nat) (rs : list (res value)) (s : state) : option obs :=
+  match canon_results n0 (heap s) rs (mk_cst [] [] 1000) with
+  | Some (crs, cs1) =>
+      match canon_ns n0 (heap s) (ctx s) cs1 with
+      | Some (cc, cs2) =>
+          match canon_ns n0 (heap s) (imps s) cs2 with
+          | Some (ci, cs3) =>
+              match canon_ns n0 (heap s) (nsd s) cs3 with
+              | Some (cd, _) => Some (mk_obs crs cc ci cd)
+              | None => None
+              end
+          | None => None
+          end
+      | None => None
+      end
+  | None => None
+  end.
+
+(** equality of observations *)
+Fixpoint cval_eqb (a b : cval) : bool :=
+  let fix go (l1 l2 : list cval) : bool :=
+    match l1, l2 with
+    | [], [] => true
+    | x :: xs, y :: ys => cval_eqb x y && go xs ys
+    | _, _ => false
+    end in
+  let fix goa (l1 l2 : list (string * cval)) : bool :=
+    match l1, l2 with
+    | [], [] => true
+    | (k1, x) :: xs, (k2, y) :: ys => String.eqb k1 k2 && cval_eqb x y && goa xs ys
+    | _, _ => false
+    end in
+  match a, b with
+  | CNone, CNone => true
+  | CBool x, CBool y => Bool.eqb x y
+  | CInt x, CInt y => Z.eqb x y
+  | CStr x, CStr y => String.eqb x y
+  | CNative x, CNative y => String.eqb x y
+  | CMod x, CMod y => String.eqb x y
+  | CList i x, CList j y => Nat.eqb i j && go x y
+  | CBack i, CBack j => Nat.eqb i j
+  | CFunc i x, CFunc j y => Nat.eqb i j && String.eqb x y
+  | CClass i n x, CClass j m y => Nat.eqb i j && String.eqb n m && goa x y
+  | _, _ => false
+  end.
+
+Definition cns_eqb (a b : list (string * cval)) : bool :=
+  list_eqb (fun p q => String.eqb (fst p) (fst q) && cval_eqb (snd p) (snd q)) a b.
+
+Definition obs_eqb (a b : obs) : bool :=
+  list_eqb (res_eqb cval_eqb) (o_res a) (o_res b)
+  && cns_eqb (o_ctx a) (o_ctx b) && cns_eqb (o_imps a) (o_imps b) && cns_eqb (o_nsd a) (o_nsd b).
+
+(** * Whole cases, as the harness runs them *)
+
+(** several !py expressions evaluated one after the other on the same Context; an error in one
+    does not stop the next *)
+Fixpoint run_evals (mt : list (string * ns)) (b : ns) (es : list expr) (s : state)
+  : option (list (res value) * state) :=
+  match es with
+  | [] => Some ([], s)
+  | e :: r =>
+      match run_eval mt b e s with
+      | (Unsup, _) => None
+      | (x, s') => match run_evals mt b r s' with
+                   | Some (xs, s'') => Some (x :: xs, s'')
+                   | None => None
+                   end
+      end
+  end.
+
+Definition eval_case (mt : list (string * ns)) (b : ns) (n0 : nat) (h : list obj) (c : ns)
+           (imports : list stmt) (es : list expr) : option obs :=
+  match pyimport_ns mt imports [] with
+  | None => None
+  | Some i =>
+      match run_evals mt b es (eval_state c i [] h) with
+      | Some (rs, s) => observe n0 rs s
+      | None => None
+      end
+  end.
+
+Definition exec_case (mt : list (string * ns)) (b : ns) (n0 : nat) (h : list obj) (c : ns)
+           (blk : list stmt) : option obs :=
+  match run_exec mt b blk c h with
+  | (Unsup, _) => None
+  | (Ok _, s) => observe n0 [Ok PNone] s
+  | (Err n m, s) => observe n0 [Err n m] s
+  end.
+
+Definition check_obs (model : option obs) (seen : obs) : nat :=
+  match model with
+  | None => 2%nat
+  | Some o => if obs_eqb o seen then 0%nat else 1%nat
+  end.
+
+(** the builtins and modules of the fragment (what the harness' name pool can reach) *)
+Definition std_builtins : ns :=
+  [("len", PNative "len"); ("abs", PNative "abs"); ("list", PNative "list");
+   ("sum", PNative "sum"); ("id", PNative "id")].
+Definition std_mods : list (string * ns) :=
+  [("math", [("gcd", PNative "math.gcd")]);
+   ("c14_mod", [("K", PInt 7); ("S", PStr "seven")])].
